@@ -17,7 +17,8 @@ namespace RB.DB
 
 /-- every data point occurs in acknowledged requests at most as often as it was
 handed to the back end (so: a data point persisted once is acknowledged at most
-once), after any sequence of events from the initial state -/
+once), after any sequence of events from the initial state — including data
+points handed over by other threads while a request is in flight -/
 theorem c17_ack_at_most_once (m : Meta) (v2 : Bool) (t0 : Nat) (es : List Event) (x : Run × DP) :
     (ackedItems (run (init m v2 t0) es)).count x ≤ (persisted es).count x := by
   have h := (run_conserves (init m v2 t0) es).count_eq x
@@ -26,79 +27,138 @@ theorem c17_ack_at_most_once (m : Meta) (v2 : Bool) (t0 : Nat) (es : List Event)
   have h1 : (items (init m v2 t0).cache).count x = 0 := by simp [items, init]
   omega
 
-/-- the same holds on the pinned tree (losing data does not duplicate it) -/
-theorem c17_ack_at_most_once_pinned (m : Meta) (v2 : Bool) (t0 : Nat) (es : List Event) (x : Run × DP) :
-    (ackedItems (runPinned (init m v2 t0) es)).count x ≤ (persisted es).count x := by
-  suffices h : ∀ s : State, (ackedItems (runPinned s es)).count x ≤
+/-- the same holds for any way of emptying the cache that never invents data points
+(in particular the pinned tree and the tree after the first repair: losing data
+does not duplicate it) -/
+theorem ack_at_most_once_of (send : State → List Attempt → List (Run × DP) → State)
+    (hsend : ∀ s script during x, (ackedItems (send s script during)).count x +
+        (items (send s script during).cache).count x ≤
+        (ackedItems s).count x + (items s.cache).count x + during.count x)
+    (m : Meta) (v2 : Bool) (t0 : Nat) (es : List Event) (x : Run × DP) :
+    (ackedItems (es.foldl (stepWith send) (init m v2 t0))).count x ≤ (persisted es).count x := by
+  suffices h : ∀ s : State, (ackedItems (es.foldl (stepWith send) s)).count x ≤
       (ackedItems s).count x + (items s.cache).count x + (persisted es).count x by
     have := h (init m v2 t0)
     simpa [ackedItems, items, init] using this
   induction es with
-  | nil => intro s; simp [runPinned, persisted]
+  | nil => intro s; simp [persisted]
   | cons e es ih =>
     intro s
-    have hrun : runPinned s (e :: es) = runPinned (stepPinned s e) es := rfl
-    rw [hrun]
+    rw [List.foldl_cons]
     refine Nat.le_trans (ih _) ?_
-    have hsend : ∀ script, (ackedItems (sendAndEmptyPinned s script)).count x +
-        (items (sendAndEmptyPinned s script).cache).count x ≤
-        (ackedItems s).count x + (items s.cache).count x := by
-      intro script
-      unfold sendAndEmptyPinned
-      split
-      · exact Nat.le_refl _
-      · rename_i hc
-        by_cases h : (sendWithRetries script).success = true
-        · simp [ackedItems, h, items, hc]
-        · simp [ackedItems, h, items]
     cases e with
     | persist r d =>
       have hp := (items_cacheAdd s.cache r d).count_eq x
-      simp only [stepPinned, stepWith, persisted, List.count_cons, List.count_append,
-        List.count_nil] at hp ⊢
+      simp only [stepWith, persisted, List.count_cons, List.count_append, List.count_nil] at hp ⊢
       have : ackedItems { s with cache := cacheAdd s.cache r d } = ackedItems s := rfl
       rw [this]; omega
-    | sendData now script =>
-      simp only [stepPinned, stepWith, persisted]
+    | sendData now script during =>
+      simp only [stepWith, persisted, List.count_append]
       split
-      · have := hsend script
-        have e1 : ackedItems { sendAndEmptyPinned s script with lastSend := now + sleptIn s script }
-            = ackedItems (sendAndEmptyPinned s script) := rfl
+      · have := hsend s script during x
+        have e1 : ackedItems { send s script during with lastSend := now + sleptIn s script }
+            = ackedItems (send s script during) := rfl
         rw [e1]; simp only; omega
-      · omega
-    | close script =>
-      simp only [stepPinned, stepWith, persisted]
-      have := hsend script
+      · have hp := (items_addAll s.cache during).count_eq x
+        have : ackedItems { s with cache := addAll s.cache during } = ackedItems s := rfl
+        rw [this]
+        simp only [List.count_append] at hp
+        simp only; omega
+    | close script during =>
+      simp only [stepWith, persisted, List.count_append]
+      have := hsend s script during x
+      omega
+
+theorem c17_ack_at_most_once_pinned (m : Meta) (v2 : Bool) (t0 : Nat) (es : List Event) (x : Run × DP) :
+    (ackedItems (runPinned (init m v2 t0) es)).count x ≤ (persisted es).count x := by
+  refine ack_at_most_once_of sendAndEmptyPinned ?_ m v2 t0 es x
+  intro s script during x
+  unfold sendAndEmptyPinned
+  split
+  · rename_i hc
+    have hp := (items_addAll_nil during).count_eq x
+    have : ackedItems { s with cache := addAll [] during } = ackedItems s := rfl
+    rw [this, hc]; simp only [items, List.flatMap_nil, List.count_nil] at hp ⊢; omega
+  · rename_i hc
+    by_cases h : (sendWithRetries script).success = true
+    · simp [ackedItems, h, items, hc]
+    · simp only [ackedItems, h, List.flatMap_append, List.flatMap_cons, List.flatMap_nil,
+        Bool.false_eq_true, if_false, List.append_nil, items, List.count_nil]
+      omega
+
+theorem c17_ack_at_most_once_unlocked (m : Meta) (v2 : Bool) (t0 : Nat) (es : List Event) (x : Run × DP) :
+    (ackedItems (runUnlocked (init m v2 t0) es)).count x ≤ (persisted es).count x := by
+  refine ack_at_most_once_of sendAndEmptyUnlocked ?_ m v2 t0 es x
+  intro s script during x
+  unfold sendAndEmptyUnlocked
+  split
+  · rename_i hc
+    have hp := (items_addAll_nil during).count_eq x
+    have : ackedItems { s with cache := addAll [] during } = ackedItems s := rfl
+    rw [this, hc]; simp only [items, List.flatMap_nil, List.count_nil] at hp ⊢; omega
+  · rename_i hc
+    by_cases h : (sendWithRetries script).success = true
+    · simp [ackedItems, h, items, hc]
+    · have hp := (items_addAll s.cache during).count_eq x
+      simp only [List.count_append] at hp
+      simp only [ackedItems, h, List.flatMap_append, List.flatMap_cons, List.flatMap_nil,
+        Bool.false_eq_true, if_false, List.append_nil]
+      rw [hc] at hp ⊢
       omega
 
 /-! ### "is kept for the next attempt whenever a request fails" -/
 
-/-- a transmission point whose request fails leaves the cache exactly as it was -/
-theorem c17_kept_on_failure (s : State) (script : List Attempt)
+/-- a transmission point whose request fails keeps every data point: the new cache is
+the old one with the data points handed over meanwhile appended (the unsent ones
+first, per run in their order), whatever other threads did while it was in flight -/
+theorem c17_kept_on_failure (s : State) (script : List Attempt) (during : List (Run × DP))
+    (hc : s.cache ≠ []) (h : (sendWithRetries script).success = false) :
+    (sendAndEmpty s script during).cache = mergeBack s.cache (addAll [] during) ∧
+    (items (sendAndEmpty s script during).cache).Perm (items s.cache ++ during) := by
+  have heq : (sendAndEmpty s script during).cache = mergeBack s.cache (addAll [] during) := by
+    unfold sendAndEmpty
+    split
+    · rename_i h0; exact absurd h0 hc
+    · simp [h]
+  refine ⟨heq, ?_⟩
+  rw [heq]
+  exact (items_mergeBack _ _).trans (List.Perm.append_left _ (items_addAll_nil during))
+
+/-- … and without interleaving the cache is literally unchanged -/
+theorem c17_kept_on_failure_quiet (s : State) (script : List Attempt)
     (h : (sendWithRetries script).success = false) :
-    (sendAndEmpty s script).cache = s.cache := by
+    (sendAndEmpty s script []).cache = s.cache := by
   unfold sendAndEmpty
   split
-  · rfl
-  · simp [h]
+  · rename_i hc; simp [addAll, hc]
+  · simp [h, mergeBack, addAll, items]
 
-/-- … at every transmission point of a session: whatever the event, if it made a
-request and the request failed, nothing left the cache; and a `persist` only adds -/
-theorem c17_kept_on_failure_step (s : State) (e : Event) :
-    (∀ now script, e = .sendData now script → (sendWithRetries script).success = false →
-        (step s e).cache = s.cache) ∧
-    (∀ script, e = .close script → (sendWithRetries script).success = false →
-        (step s e).cache = s.cache) := by
+/-- … at every transmission point of a session -/
+theorem c17_kept_on_failure_step (s : State) (e : Event) (x : Run × DP) :
+    (∀ now script during, e = .sendData now script during → (sendWithRetries script).success = false →
+        (items s.cache).count x ≤ (items (step s e).cache).count x) ∧
+    (∀ script during, e = .close script during → (sendWithRetries script).success = false →
+        (items s.cache).count x ≤ (items (step s e).cache).count x) := by
+  have key : ∀ script during, (sendWithRetries script).success = false →
+      (items s.cache).count x ≤ (items (sendAndEmpty s script during).cache).count x := by
+    intro script during h
+    by_cases hc : s.cache = []
+    · simp [hc, items]
+    · have := ((c17_kept_on_failure s script during hc h).2).count_eq x
+      simp only [List.count_append] at this
+      omega
   constructor
-  · intro now script he h
+  · intro now script during he h
     subst he
     simp only [step, stepWith]
     split
-    · exact c17_kept_on_failure s script h
-    · rfl
-  · intro script he h
+    · exact key script during h
+    · have := (items_addAll s.cache during).count_eq x
+      simp only [List.count_append] at this
+      simp only; omega
+  · intro script during he h
     subst he
-    exact c17_kept_on_failure s script h
+    exact key script during h
 
 -- non-vacuity: a failing script exists, and the cache it leaves is non-empty
 example : (sendWithRetries [.server, .refused, .server, .refused, .server]).success = false := by decide
@@ -107,7 +167,7 @@ example : (sendWithRetries [.client]).success = false := by decide
 /-- the pinned tree violates it: one data point, one refused request, cache empty -/
 theorem c17_kept_on_failure_pinned_fails :
     ¬ (∀ (s : State) (script : List Attempt), (sendWithRetries script).success = false →
-        (sendAndEmptyPinned s script).cache = s.cache) := by
+        (sendAndEmptyPinned s script []).cache = s.cache) := by
   intro h
   have := h { info := ⟨"t", "e", "s"⟩, v2 := false, cache := [(0, [⟨1, 1, []⟩])], lastSend := 0, reqs := [] }
     [.client] (by decide)
@@ -116,43 +176,93 @@ theorem c17_kept_on_failure_pinned_fails :
 
 /-! ### "has been acknowledged exactly once if the session's final transmission succeeds" -/
 
-/-- after any session that ends with a `close` whose request is acknowledged, the
-acknowledged requests contain exactly the data points handed to the back end,
-each as often as it was handed over (a permutation) -/
+/-- after any session — any interleaving of persists, transmission points and data
+points handed over by other threads while requests are in flight — that ends with a
+`close` (all workers done) whose request is acknowledged, the acknowledged requests
+contain exactly the data points handed to the back end, each as often as it was
+handed over (a permutation) -/
 theorem c17_final_ok_all_once (m : Meta) (v2 : Bool) (t0 : Nat) (es : List Event) (script : List Attempt)
     (h : (sendWithRetries script).success = true) :
-    (ackedItems (run (init m v2 t0) (es ++ [.close script]))).Perm (persisted es) := by
-  have hc := run_conserves (init m v2 t0) (es ++ [.close script])
-  have hempty : (run (init m v2 t0) (es ++ [.close script])).cache = [] := by
+    (ackedItems (run (init m v2 t0) (es ++ [.close script []]))).Perm (persisted es) := by
+  have hc := run_conserves (init m v2 t0) (es ++ [.close script []])
+  have hempty : (run (init m v2 t0) (es ++ [.close script []])).cache = [] := by
     simp only [run, List.foldl_append, List.foldl_cons, List.foldl_nil, step, stepWith]
     unfold sendAndEmpty
     split
-    · assumption
-    · simp [h]
+    · simp [addAll]
+    · simp [h, addAll]
   rw [hempty] at hc
   simpa [items, ackedItems, init, persisted_append, persisted] using hc
 
 /-- as counts: exactly once per hand-over -/
 theorem c17_final_ok_count (m : Meta) (v2 : Bool) (t0 : Nat) (es : List Event) (script : List Attempt)
     (h : (sendWithRetries script).success = true) (x : Run × DP) :
-    (ackedItems (run (init m v2 t0) (es ++ [.close script]))).count x = (persisted es).count x :=
+    (ackedItems (run (init m v2 t0) (es ++ [.close script []]))).count x = (persisted es).count x :=
   (c17_final_ok_all_once m v2 t0 es script h).count_eq x
 
--- non-vacuity: a session with a failed and a successful transmission
+-- non-vacuity: a session with a failed and a successful transmission, and a data point that
+-- another thread hands over while the first (acknowledged) request is in flight
 example : (sendWithRetries [.refused, .server, .ok]).success = true := by decide
 example :
     ackedItems (run (init ⟨"t", "e", "s"⟩ true 0)
-      [.persist 0 ⟨1, 1, []⟩, .sendData 30 [.client], .persist 1 ⟨1, 1, []⟩, .close [.ok]])
-    = [(0, ⟨1, 1, []⟩), (1, ⟨1, 1, []⟩)] := by decide
+      [.persist 0 ⟨1, 1, []⟩, .sendData 30 [.ok] [(1, ⟨1, 1, []⟩)], .sendData 60 [.client] [(1, ⟨1, 2, []⟩)],
+       .close [.ok] []])
+    = [(0, ⟨1, 1, []⟩), (1, ⟨1, 1, []⟩), (1, ⟨1, 2, []⟩)] := by decide
 
-/-- on the pinned tree the data point of the example above is lost -/
+/-- on the pinned tree a data point is lost after a failed request -/
 theorem c17_final_ok_all_once_pinned_fails :
     ¬ (∀ (es : List Event) (script : List Attempt), (sendWithRetries script).success = true →
-        (ackedItems (runPinned (init ⟨"t", "e", "s"⟩ true 0) (es ++ [.close script]))).Perm (persisted es)) := by
+        (ackedItems (runPinned (init ⟨"t", "e", "s"⟩ true 0) (es ++ [.close script []]))).Perm (persisted es)) := by
   intro h
-  have := (h [.persist 0 ⟨1, 1, []⟩, .sendData 30 [.client], .persist 1 ⟨1, 1, []⟩] [.ok] (by decide)).length_eq
+  have := (h [.persist 0 ⟨1, 1, []⟩, .sendData 30 [.client] [], .persist 1 ⟨1, 1, []⟩] [.ok] (by decide)).length_eq
   revert this
   decide
+
+/-- after the first repair alone the statement is still false with the parallel
+scheduler: a data point handed over by another thread while an acknowledged request
+is in flight is dropped when the cache is replaced by `{}` -/
+theorem c17_final_ok_all_once_full_fails :
+    ¬ (∀ (es : List Event) (script : List Attempt), (sendWithRetries script).success = true →
+        (ackedItems (runUnlocked (init ⟨"t", "e", "s"⟩ true 0) (es ++ [.close script []]))).Perm (persisted es)) := by
+  intro h
+  have := (h [.persist 0 ⟨1, 1, []⟩, .sendData 30 [.ok] [(1, ⟨1, 1, []⟩)]] [.ok] (by decide)).length_eq
+  revert this
+  decide
+
+/-- what did hold after the first repair: the statement for sessions without interleaving -/
+def quiet : List Event → Prop
+  | [] => True
+  | .persist _ _ :: es => quiet es
+  | .sendData _ _ during :: es => during = [] ∧ quiet es
+  | .close _ during :: es => during = [] ∧ quiet es
+
+theorem sendAndEmptyUnlocked_quiet (s : State) (script : List Attempt) :
+    sendAndEmptyUnlocked s script [] = sendAndEmpty s script [] := by
+  unfold sendAndEmptyUnlocked sendAndEmpty
+  split
+  · rfl
+  · by_cases h : (sendWithRetries script).success = true
+    · simp [h, addAll]
+    · simp [h, addAll, mergeBack, items]
+
+theorem c17_final_ok_all_once_unlocked_partial (s : State) (es : List Event) (hq : quiet es) :
+    runUnlocked s es = run s es := by
+  induction es generalizing s with
+  | nil => rfl
+  | cons e es ih =>
+    have hstep : stepUnlocked s e = step s e := by
+      cases e with
+      | persist r d => rfl
+      | sendData now script during =>
+        obtain ⟨hd, _⟩ := hq; subst hd
+        simp only [stepUnlocked, step, stepWith, sendAndEmptyUnlocked_quiet]
+      | close script during =>
+        obtain ⟨hd, _⟩ := hq; subst hd
+        simp only [stepUnlocked, step, stepWith, sendAndEmptyUnlocked_quiet]
+    have hq' : quiet es := by cases e <;> simp_all [quiet]
+    simp only [runUnlocked, run, List.foldl_cons] at ih ⊢
+    rw [hstep]
+    exact ih (step s e) hq'
 
 /-! ### retry policy of one request -/
 
@@ -219,8 +329,8 @@ example : lookupV2 (encodeV2 [(0, [⟨1, 1, [⟨("t", "ms"), 5⟩]⟩, ⟨1, 1, 
 /-- every request of a session carries the session's start time, environment and
 source details, the API version asked for, and covers exactly the cache content
 of that moment -/
-theorem c17_payload_carries (s : State) (script : List Attempt) (q : Req)
-    (hq : q ∈ (sendAndEmpty s script).reqs) (hs : ∀ q' ∈ s.reqs, q'.payload.info = s.info) :
+theorem c17_payload_carries (s : State) (script : List Attempt) (during : List (Run × DP)) (q : Req)
+    (hq : q ∈ (sendAndEmpty s script during).reqs) (hs : ∀ q' ∈ s.reqs, q'.payload.info = s.info) :
     q.payload.info = s.info := by
   unfold sendAndEmpty at hq
   split at hq
@@ -240,9 +350,10 @@ theorem c17_payload_carries_run (m : Meta) (v2 : Bool) (t0 : Nat) (es : List Eve
   | cons e es ih =>
     intro s hs
     have hrun : run s (e :: es) = run (step s e) es := rfl
-    have hsend : ∀ script, (sendAndEmpty s script).info = s.info ∧ (sendAndEmpty s script).v2 = s.v2 ∧
-        ∀ q ∈ (sendAndEmpty s script).reqs, q.payload.info = s.info ∧ q.payload.v2 = s.v2 := by
-      intro script
+    have hsend : ∀ script during, (sendAndEmpty s script during).info = s.info ∧
+        (sendAndEmpty s script during).v2 = s.v2 ∧
+        ∀ q ∈ (sendAndEmpty s script during).reqs, q.payload.info = s.info ∧ q.payload.v2 = s.v2 := by
+      intro script during
       unfold sendAndEmpty
       split
       · exact ⟨rfl, rfl, hs⟩
@@ -256,12 +367,12 @@ theorem c17_payload_carries_run (m : Meta) (v2 : Bool) (t0 : Nat) (es : List Eve
         ∀ q ∈ (step s e).reqs, q.payload.info = s.info ∧ q.payload.v2 = s.v2 := by
       cases e with
       | persist r d => exact ⟨rfl, rfl, hs⟩
-      | sendData now script =>
+      | sendData now script during =>
         simp only [step, stepWith]
         split
-        · exact hsend script
+        · exact hsend script during
         · exact ⟨rfl, rfl, hs⟩
-      | close script => exact hsend script
+      | close script during => exact hsend script during
     rw [hrun]
     have := ih (step s e) (by rw [key.1, key.2.1]; exact key.2.2)
     rw [key.1, key.2.1] at this
